@@ -439,6 +439,37 @@ def sessionsRun (c : Cfg) : Option SLog → List SLog → List (SLog × SLog)
   | _, [] => []
   | snap, s :: ss => (stepsRun c snap [] s).1 ++ sessionsRun c (stepsRun c snap [] s).2 ss
 
+/-! ### wave 10: the file-system operations of ONE state write, and a crash before / after each of them
+
+`stepCT` above takes the commit of a write as one indivisible event.  That is a fact about the code: the committed
+path must only ever be the TARGET of one `os.replace` / `os.rename` and never be removed.  `FsOp` = the os-level
+operations a write performs on the instance's two files, in order (recorded from a real write by the probe); a crash
+can fall after any prefix of them.  With "remove the state file, then rename the temporary file" there is a crash point
+at which the directory holds only the complete temporary file — which no load reads: the instance is lost although it
+had a committed state before the write began. -/
+
+inductive FsOp where
+  | writeTmp          -- the temporary file gets its content (a crash inside is a `Cut`)
+  | fsyncTmp
+  | removeCommitted   -- os.remove / os.unlink of `<id>.json`
+  | renameOnto        -- os.rename / os.replace of the temporary file onto `<id>.json`
+deriving DecidableEq, Repr
+
+/-- committed file and temporary file -/
+abbrev Disk := Option Persist × Option Tmp
+
+def fsStep (new : Persist) (dk : Disk) : FsOp → Disk
+  | .writeTmp => (dk.1, some (.complete new))
+  | .fsyncTmp => dk
+  | .removeCommitted => (none, dk.2)
+  | .renameOnto => (some new, none)
+
+def fsRun (new : Persist) (dk : Disk) (ops : List FsOp) : Disk := ops.foldl (fsStep new) dk
+
+/-- the committed path is never removed and is the target of exactly one rename -/
+def commitAtomic (ops : List FsOp) : Bool :=
+  !ops.contains .removeCommitted && (ops.filter (· == .renameOnto)).length == 1
+
 /-! ### wave 3: `ExternalStateAdapter.load_state` over the directory listing
 
 `_load_state` returns one entry per listed file: `bad` (unreadable, `None`) or the stored state with its logs
